@@ -32,16 +32,28 @@ class WigBedProp(Prop):
 
 def byte_level_check(self, rep, workdir):
     """(B) byte-level correspondence: the model writer's bytes vs the real file, where the model applies
-    (uncompressed, manual or no zooms; bigWig: integer values; bigBed: every input — its statistics are coverage depths). Evidence of model fidelity; a mismatch here with the
+    (manual or no zooms; bigWig: integer values; bigBed: every input — its statistics are coverage depths; compressed files: with the real file's blocks handed to the model, which checks that they inflate to its own sections). Evidence of model fidelity; a mismatch here with the
     observables intact is a NOTE, not a violation (a layout-preserving rewrite must not raise an alarm)."""
     stage = []
+    import bbi_codec
     for c in self._last_cases:
         o = c.opts()
-        if c.kind == "wig" and o.get("compress") == "0" and o.get("zooms") != "auto" and (self._last_impl.get(c.id) or ["x"])[0] == "R ok" \
-                and not (c.tags & {"zero_length_mid", "zero_length_at_0", "zero_length_at_end"}):
-            stage.append(CaseT("wb_" + c.id, "wigbytes", [], c.lines))
-        elif c.kind == "bed" and o.get("compress") == "0" and o.get("zooms") != "auto" and (self._last_impl.get(c.id) or ["x"])[0] == "R ok":
-            stage.append(CaseT("wb_" + c.id, "bedbytes", [], c.lines))
+        if c.kind not in ("wig", "bed") or o.get("zooms") == "auto" or (self._last_impl.get(c.id) or ["x"])[0] != "R ok":
+            continue
+        if c.kind == "wig" and (c.tags & {"zero_length_mid", "zero_length_at_0", "zero_length_at_end"}):
+            continue
+        extra = []
+        if o.get("compress") != "0":
+            # zlib is a parameter of the model: hand it every block of the real file (compressed bytes, and what the
+            # independent Python inflater makes of them) in file order; the model checks they inflate to ITS sections
+            path = os.path.join(workdir, "main", "out", c.id + ".bin")
+            try:
+                data = open(path, "rb").read()
+                dec = bbi_codec.decode(data)
+                extra = [f"DEFL {data[off:off + size].hex() or '-'} {inflated or '-'}" for off, size, inflated in dec["inflate_table"]]
+            except Exception:
+                continue
+        stage.append(CaseT("wb_" + c.id, "wigbytes" if c.kind == "wig" else "bedbytes", [], c.lines + extra))
     mo = run_model(stage, os.path.join(workdir, "bytes"))
     eq = ne = na = 0
     fileof_eq = fileof_ne = 0
